@@ -13,6 +13,7 @@ import (
 	"sort"
 	"strings"
 	"sync"
+	"sync/atomic"
 	"testing"
 	"time"
 
@@ -38,6 +39,8 @@ type vWorld struct {
 	sessLvl map[string]auth.Level
 	uaTimers map[*Topic]*time.Timer
 	curUA  map[*Topic]*string
+	holding bool                // a request is being held: dispatched, not processed
+	blocked bool                // the request could not be dispatched: the session's single in-flight slot is taken
 	closing []string            // frames sent to sessions as they were told to stop (eviction)
 	created map[types.Uid]bool  // accounts which were created (a `state=missing` name never was)
 	deleted map[types.Uid]bool  // accounts which were deleted since
@@ -655,35 +658,79 @@ func (w *vWorld) nameNewTopic(real string) {
 	w.treal[n] = real
 }
 
+// one message of one queue of a topic, or false if that queue is empty. The real loop (Topic.runLocal) is a `select` over these
+// queues: whichever is ready may be taken; here the caller names the queue.
+func (w *vWorld) topicStep(t *Topic, q string) bool {
+	switch q {
+	case "reg":
+		select {
+		case msg := <-t.reg:
+			t.registerSession(msg)
+			return true
+		default:
+		}
+	case "unreg":
+		select {
+		case msg := <-t.unreg:
+			t.unregisterSession(msg)
+			return true
+		default:
+		}
+	case "pub":
+		select {
+		case msg := <-t.clientMsg:
+			t.handleClientMsg(msg)
+			return true
+		default:
+		}
+	case "srv":
+		select {
+		case msg := <-t.serverMsg:
+			t.handleServerMsg(msg)
+			return true
+		default:
+		}
+	case "meta":
+		select {
+		case msg := <-t.meta:
+			t.handleMeta(msg)
+			return true
+		default:
+		}
+	case "exit":
+		select {
+		case sd := <-t.exit:
+			t.handleTopicTermination(sd)
+			delete(w.uaTimers, t)
+			delete(w.curUA, t)
+			return true
+		default:
+		}
+	case "supd":
+		if t.supd != nil {
+			select {
+			case upd := <-t.supd:
+				t.handleSessionUpdate(upd, w.curUA[t], w.uaTimers[t])
+				return true
+			default:
+			}
+		}
+	}
+	return false
+}
+
+// the queues of a topic in the order this pump serves them
+var vwTopicQueues = []string{"reg", "unreg", "pub", "srv", "meta", "exit", "supd"}
+
 func (w *vWorld) pumpTopics() bool {
 	progress := false
 	for _, t := range w.loadedTopics() {
 		for {
-			step := true
-			select {
-			case msg := <-t.reg:
-				t.registerSession(msg)
-			case msg := <-t.unreg:
-				t.unregisterSession(msg)
-			case msg := <-t.clientMsg:
-				t.handleClientMsg(msg)
-			case msg := <-t.serverMsg:
-				t.handleServerMsg(msg)
-			case msg := <-t.meta:
-				t.handleMeta(msg)
-			case sd := <-t.exit:
-				t.handleTopicTermination(sd)
-				delete(w.uaTimers, t)
-				delete(w.curUA, t)
-			default:
-				step = false
-			}
-			if t.supd != nil && !step {
-				select {
-				case upd := <-t.supd:
-					t.handleSessionUpdate(upd, w.curUA[t], w.uaTimers[t])
+			step := false
+			for _, q := range vwTopicQueues {
+				if w.topicStep(t, q) {
 					step = true
-				default:
+					break
 				}
 			}
 			if !step {
@@ -695,6 +742,69 @@ func (w *vWorld) pumpTopics() bool {
 	// a topic that terminated is no longer in the hub; its exit channel was handled above only if it was still listed.
 	return progress
 }
+
+// the notifications between topics only (hub.routeSrv and the topics' serverMsg queues): what a held request or a single step
+// has set in motion is delivered, the requests which are held stay where they are
+func (w *vWorld) pumpPres() {
+	h := globals.hub
+	for i := 0; i < 1000; i++ {
+		// (as in pump: the sessions take their detach notices before the hub routes what the handler has sent)
+		progress := w.pumpSessions()
+		for len(h.routeSrv) > 0 {
+			msg := <-h.routeSrv
+			progress = true
+			if dst := h.topicGet(msg.RcptTo); dst != nil {
+				select {
+				case dst.serverMsg <- msg:
+				default:
+				}
+			} else {
+				w.routed(msg)
+			}
+		}
+		for _, t := range w.loadedTopics() {
+			for w.topicStep(t, "srv") {
+				progress = true
+			}
+		}
+		if w.pumpSessions() {
+			progress = true
+		}
+		if !progress {
+			return
+		}
+	}
+	panic("pumpPres: no quiescence")
+}
+
+// what is held, for the digest: the hub's queues, the queues of the loaded topics and of those which are shutting down
+func (w *vWorld) heldDigest() []string {
+	h := globals.hub
+	parts := []string{}
+	if len(h.join) > 0 || len(h.unreg) > 0 {
+		parts = append(parts, fmt.Sprintf("hub[join=%d unreg=%d]", len(h.join), len(h.unreg)))
+	}
+	one := func(t *Topic, tag string) {
+		if n := len(t.reg) + len(t.unreg) + len(t.clientMsg) + len(t.meta) + len(t.exit); n > 0 {
+			parts = append(parts, fmt.Sprintf("%s%s[reg=%d unreg=%d pub=%d meta=%d exit=%d]", tag, w.tname(t.name), len(t.reg), len(t.unreg),
+				len(t.clientMsg), len(t.meta), len(t.exit)))
+		}
+	}
+	for _, t := range w.loadedTopics() {
+		one(t, "")
+	}
+	ex := append([]*Topic{}, vwExiting...)
+	sort.Slice(ex, func(i, j int) bool { return w.tname(ex[i].name) < w.tname(ex[j].name) })
+	for _, t := range ex {
+		one(t, "x:")
+	}
+	if len(parts) == 0 {
+		return nil
+	}
+	return []string{"held " + strings.Join(parts, " ")}
+}
+
+func (w *vWorld) anythingHeld() bool { return len(w.heldDigest()) > 0 }
 
 func (w *vWorld) pumpSessions() bool {
 	progress := false
@@ -878,7 +988,11 @@ func (w *vWorld) sessDigest() []string {
 		}
 		s.subsLock.RUnlock()
 		sort.Strings(names)
-		out = append(out, sn+"{"+strings.Join(names, ",")+"}")
+		mark := ""
+		if w.inflightTaken(s) {
+			mark = "*" // a {sub} or {leave} of the session is in flight
+		}
+		out = append(out, sn+"{"+strings.Join(names, ",")+"}"+mark)
 	}
 	return out
 }
@@ -956,8 +1070,22 @@ func (w *vWorld) dispatch(s *Session, msg *ClientComMessage) {
 		w.ad.CrashSnap = nil
 	}
 	w.ad.Calls = nil
+	if (msg.Sub != nil || msg.Leave != nil) && w.inflightTaken(s) {
+		// Session.subscribe / Session.leave would wait for the slot: the session's read loop stands still
+		w.blocked = true
+		w.ad.vmemDisarm()
+		w.ad.CrashAfter = 0
+		w.failK = 0
+		w.crashK = 0
+		return
+	}
 	s.dispatch(msg)
-	w.pump()
+	if w.holding {
+		// a held request: it stays in the queue the session has put it in
+		w.pumpPres()
+	} else {
+		w.pump()
+	}
 	w.ad.vmemDisarm()
 	w.ad.CrashAfter = 0
 	w.failK = 0
@@ -1088,6 +1216,11 @@ func (w *vWorld) accountGone(uid types.Uid) bool {
 	return false
 }
 
+// the session has a {sub} or {leave} in flight (Session.inflightReqs holds one request at a time)
+func (w *vWorld) inflightTaken(s *Session) bool {
+	return s.inflightReqs != nil && len(s.inflightReqs.sem) >= cap(s.inflightReqs.sem)
+}
+
 func (w *vWorld) asUidOf(s *Session, kv map[string]string) types.Uid {
 	if as, ok := kv["as"]; ok {
 		if uid, ok := w.users[strings.SplitN(as, ":", 2)[0]]; ok {
@@ -1174,6 +1307,85 @@ func (w *vWorld) op(ws []string) (string, bool) {
 	case "crash":
 		w.crashK, _ = vInt(ws[1])
 		return "ok", true
+	}
+	switch ws[0] {
+	case "hold":
+		// hold sub|leave|pub|deltopic|unload …: the request is dispatched by its session (or the timer fires) but what it has
+		// queued - at the hub, at a topic - is not processed: `hubstep`, `tstep` and `settle` do that, one handler at a time
+		if len(ws) < 2 || w.holding {
+			return "", false
+		}
+		switch ws[1] {
+		case "sub", "leave", "pub", "deltopic", "unload":
+		default:
+			return "", false
+		}
+		if ws[1] == "deltopic" && len(ws) > 3 {
+			// only the owner's request shuts the topic down at the hub (case 1.1.1 of topicUnreg); anybody else's is a leave
+			t := globals.hub.topicGet(w.realTopic(ws[3], types.ZeroUid))
+			if s0 := w.sess[ws[2]]; t == nil || s0 == nil || t.owner != s0.uid || t.owner.IsZero() {
+				return "nohold", true
+			}
+		}
+		w.holding = true
+		w.failK, w.crashK = 0, 0 // no store failure is injected into a held request
+		defer func() { w.holding = false }()
+		return w.op(ws[1:])
+	case "hubstep":
+		// the hub takes everything off its queues (Hub.run): joins are handed to their topics, topics are shut down
+		w.ad.Calls = nil
+		w.pumpHub()
+		w.pumpPres()
+		return w.renderLine(ws), true
+	case "tstep":
+		// tstep T1 reg|unreg|pub|meta|exit: the topic (loaded or shutting down) takes one message off one of its queues
+		if len(ws) < 3 {
+			return "", false
+		}
+		w.ad.Calls = nil
+		real := w.realTopic(ws[1], types.ZeroUid)
+		t := globals.hub.topicGet(real)
+		if t == nil {
+			for _, x := range vwExiting {
+				if x.name == real {
+					t = x
+				}
+			}
+		}
+		if t == nil {
+			return "notloaded", true
+		}
+		if !w.topicStep(t, ws[2]) {
+			return "empty", true
+		}
+		if ws[2] == "exit" {
+			keep := vwExiting[:0]
+			for _, x := range vwExiting {
+				if x != t {
+					keep = append(keep, x)
+				}
+			}
+			vwExiting = keep
+		}
+		w.pumpPres()
+		return w.renderLine(ws), true
+	case "settle":
+		// everything which is queued anywhere is processed, in the order of this harness: hub, then topics, then the topics which
+		// are shutting down (these terminate: what is left on their queues is lost, as it is when Topic.runLocal returns)
+		w.ad.Calls = nil
+		w.pump()
+		return w.renderLine(ws), true
+	case "reset", "user", "sess", "fail", "crash":
+	case "drop":
+		// a connection may drop while requests are held if it is the one with a request in flight (Session.cleanUp waits for it)
+		if s0 := w.sess[ws[1]]; w.anythingHeld() && (s0 == nil || !w.inflightTaken(s0)) {
+			return "pending", true
+		}
+	default:
+		if !w.holding && w.anythingHeld() {
+			// requests are held: the history goes on with steps, or settles first
+			return "pending", true
+		}
 	}
 	var s *Session
 	if len(ws) > 1 {
@@ -1360,9 +1572,51 @@ func (w *vWorld) op(ws []string) (string, bool) {
 	case "drop":
 		// the connection is gone: what Session.cleanUp does to the topics (the session object stays, it can subscribe again
 		// like a new connection of the same user would)
-		s.bkgTimer.Stop()
-		s.unsubAll()
-		w.pump()
+		if w.inflightTaken(s) {
+			// the connection closes while a {sub} or {leave} of the session is still in flight: Session.cleanUp runs in its own
+			// goroutine, as it does in the server, and waits for the request; the hub and the topics go on meanwhile
+			done := make(chan struct{})
+			var crashed any
+			go func() {
+				defer close(done)
+				defer func() {
+					if r := recover(); r != nil {
+						crashed = r
+					}
+				}()
+				s.cleanUp(false)
+			}()
+			time.Sleep(5 * time.Millisecond) // cleanUp has reached its wait (or, without one, has finished)
+			w.pump()
+			hung := false
+			select {
+			case <-done:
+			case <-time.After(2 * time.Second):
+				// nothing is queued anywhere any more and cleanUp still waits: the request in flight was lost, the wait never ends
+				hung = true
+			}
+			if crashed != nil {
+				panic(crashed)
+			}
+			w.pump()
+			// the session object stands for the next connection of the same user: nothing attached, nothing in flight
+			s.subsLock.Lock()
+			s.subs = make(map[string]*Subscription)
+			s.subsLock.Unlock()
+			s.inflightReqs = newBoundedWaitGroup(1)
+			atomic.StoreInt32(&s.terminating, 0)
+			for len(s.stop) > 0 {
+				<-s.stop
+			}
+			w.registerSessions()
+			if hung {
+				return "hang", true
+			}
+		} else {
+			s.bkgTimer.Stop()
+			s.unsubAll()
+			w.pump()
+		}
 	case "unload":
 		// idle timeout of a topic (killTimer): the topic goes offline; the next request reloads it from the store
 		if t := globals.hub.topicGet(w.realTopic(ws[1], types.ZeroUid)); t != nil {
@@ -1376,7 +1630,11 @@ func (w *vWorld) op(ws []string) (string, bool) {
 			dn := time.NewTimer(time.Hour)
 			dn.Stop()
 			t.handleTopicTimeout(globals.hub, ua, w.uaTimers[t], dn)
-			w.pump()
+			if w.holding {
+				w.pumpPres()
+			} else {
+				w.pump()
+			}
 		} else {
 			return "notloaded", true
 		}
@@ -1417,6 +1675,7 @@ func (w *vWorld) op(ws []string) (string, bool) {
 			s.subsLock.Lock()
 			s.subs = make(map[string]*Subscription)
 			s.subsLock.Unlock()
+			s.inflightReqs = newBoundedWaitGroup(1)
 			for len(s.send) > 0 {
 				<-s.send
 			}
@@ -1428,6 +1687,15 @@ func (w *vWorld) op(ws []string) (string, bool) {
 	default:
 		return "", false
 	}
+	if w.blocked {
+		w.blocked = false
+		return "blocked", true
+	}
+	return w.renderLine(ws), true
+}
+
+// the output line of a request: frames per session, pushes, adapter calls, digests
+func (w *vWorld) renderLine(ws []string) string {
 	frames := w.drainSessions()
 	frames = append(frames, w.closing...)
 	w.closing = nil
@@ -1444,9 +1712,10 @@ func (w *vWorld) op(ws []string) (string, bool) {
 	parts = append(parts, w.cacheDigest()...)
 	parts = append(parts, w.storeDigest()...)
 	parts = append(parts, w.sessDigest()...)
+	parts = append(parts, w.heldDigest()...)
 	w.ad.Calls = nil
 	w.crashK = 0
-	return strings.Join(parts, " | "), true
+	return strings.Join(parts, " | ")
 }
 
 func kvOr(kv map[string]string, k string) string {
